@@ -39,6 +39,8 @@ def build_exts():
                                                                  "arch/JitCore_arm.c"]),
                             ("JitCore_aarch64", "miasm.jitter.arch", ["JitCore.c", "vm_mngr.c", "vm_mngr_py.c", "op_semantics.c", "bn.c",
                                                                      "arch/JitCore_aarch64.c"]),
+                            ("JitCore_mips32", "miasm.jitter.arch", ["JitCore.c", "vm_mngr.c", "vm_mngr_py.c", "op_semantics.c", "bn.c",
+                                                                    "arch/JitCore_mips32.c"]),
                             ("Jitgcc", "miasm.jitter", ["Jitgcc.c", "bn.c"])):
         so = os.path.join(d, name + ext)
         p = subprocess.run(["gcc", "-O1", "-w", "-DNDEBUG", "-shared", "-fPIC", "-I", inc, "-I", JIT, "-o", so] +
@@ -57,7 +59,8 @@ def build_exts():
         setattr(sys.modules[pkg], name, mod)
     _BUILD.update({"pid": os.getpid(), "dir": d, "libs": [mods["VmMngr"][1], mods["JitCore_x86"][1]],
                    "libs_arm": [mods["VmMngr"][1], mods["JitCore_arm"][1]],
-                   "libs_aarch64": [mods["VmMngr"][1], mods["JitCore_aarch64"][1]], "cache": os.path.join(d, "cache")})
+                   "libs_aarch64": [mods["VmMngr"][1], mods["JitCore_aarch64"][1]],
+                   "libs_mips32": [mods["VmMngr"][1], mods["JitCore_mips32"][1]], "cache": os.path.join(d, "cache")})
     os.mkdir(_BUILD["cache"])
     return _BUILD
 
